@@ -12,6 +12,7 @@ CONSTANTS
   RootHashBeforeCommit = TRUE
   PrevEpochChecked = FALSE
   ReadersSeePendingEpoch = FALSE
+  RollbackReleasesFlag = TRUE
   ExportSched = FALSE
 VIEW View
 INIT MCInit
